@@ -135,6 +135,21 @@ func ruleC01Unwrap(p *Program, r *Run) {
 
 // valueSwitchCases returns, for the first tagged switch in body whose tag selects field `field`, the case constants.
 func valueSwitchCases(info *types.Info, body ast.Node, field string) (cases map[string]*ast.CaseClause, dflt *ast.CaseClause, sw *ast.SwitchStmt) {
+	// the code of body, and of the helpers it was split into
+	if curProgram != nil {
+		if pkg := curProgram.PkgOf(body.Pos()); pkg != nil {
+			for _, root := range curProgram.regionOf(pkg, body) {
+				if cases, dflt, sw = valueSwitchCases1(info, root, field); sw != nil {
+					return
+				}
+			}
+			return
+		}
+	}
+	return valueSwitchCases1(info, body, field)
+}
+
+func valueSwitchCases1(info *types.Info, body ast.Node, field string) (cases map[string]*ast.CaseClause, dflt *ast.CaseClause, sw *ast.SwitchStmt) {
 	ast.Inspect(body, func(n ast.Node) bool {
 		s, ok := n.(*ast.SwitchStmt)
 		if !ok || s.Tag == nil || sw != nil {
@@ -598,6 +613,24 @@ func ruleC05Dead(p *Program, r *Run, handledBin, producedBin map[string]string) 
 				if a.Else == child {
 					inDefault = true
 				}
+				// if !ok { ... } after `v, ok := table[key]` / `v, ok := x.(T)`: the branch for a miss
+				if un, isNot := ast.Unparen(a.Cond).(*ast.UnaryExpr); isNot && un.Op == token.NOT && ast.Node(a.Body) == child {
+					if okObj := objOf(p.Info, un.X); okObj != nil {
+						if fd := p.FuncAt(a.Pos()); fd != nil {
+							ast.Inspect(fd.Body, func(m ast.Node) bool {
+								as, isAs := m.(*ast.AssignStmt)
+								if !isAs || len(as.Lhs) != 2 || len(as.Rhs) != 1 || objOf(p.Info, as.Lhs[1]) != okObj {
+									return true
+								}
+								switch ast.Unparen(as.Rhs[0]).(type) {
+								case *ast.IndexExpr, *ast.TypeAssertExpr:
+									inDefault = true
+								}
+								return true
+							})
+						}
+					}
+				}
 			}
 			return !inDefault
 		})
@@ -712,7 +745,8 @@ func (g *grammar) skeletonOf(fd *ast.FuncDecl, keep func(ev *emitEvent) bool) st
 			}
 		case "HOLE", "DISPATCH":
 			h := "H*"
-			if ix, ok := ast.Unparen(ev.Arg).(*ast.IndexExpr); ok {
+			// the argument itself, or a single-assignment name for it (cond := x.Args[0])
+			if ix, ok := ast.Unparen(g.p.DefExpr(ev.Arg)).(*ast.IndexExpr); ok {
 				if v, ok := constInt(info, ix.Index); ok {
 					h = fmt.Sprintf("H%d", v)
 				}
@@ -729,6 +763,55 @@ func (g *grammar) skeletonOf(fd *ast.FuncDecl, keep func(ev *emitEvent) bool) st
 	return strings.Join(out, " ")
 }
 
+// separatorSkipsFirst: in fd, the constant sep is only written where the index of a loop over all arguments is known
+// to be at least 1, and the hole written in that loop is the argument at that index.
+func (g *grammar) separatorSkipsFirst(fd *ast.FuncDecl, sep string) bool {
+	info := g.p.Info
+	// the loop: for i := range x.Args / for i, a := range x.Args / for i := 0; i < len(x.Args); i++
+	var idx types.Object
+	ast.Inspect(fd.Body, func(n ast.Node) bool {
+		switch l := n.(type) {
+		case *ast.RangeStmt:
+			if f := selField(info, l.X); f != nil && f.Name() == "Args" && l.Key != nil {
+				idx = objOf(info, l.Key)
+			}
+		case *ast.ForStmt:
+			if as, ok := l.Init.(*ast.AssignStmt); ok && len(as.Lhs) == 1 {
+				if o := objOf(info, as.Lhs[0]); o != nil {
+					args := &ast.SelectorExpr{}
+					found := false
+					ast.Inspect(l.Cond, func(m ast.Node) bool {
+						if sel, ok := m.(*ast.SelectorExpr); ok && sel.Sel.Name == "Args" {
+							args, found = sel, true
+						}
+						return true
+					})
+					if found && isCountedLoopOver(info, l, o, args) {
+						idx = o
+					}
+				}
+			}
+		}
+		return true
+	})
+	if idx == nil {
+		return false
+	}
+	ik := g.p.ObjKey(idx)
+	seen := false
+	for _, o := range g.occs {
+		if o.Ev.Func != fd || o.Ev.Kind != "T" || strings.ToUpper(strings.TrimSpace(o.Ev.Text)) != sep {
+			continue
+		}
+		seen = true
+		f := o.St.Get(ik)
+		if f == nil || f.Lo == nil || *f.Lo < 1 {
+			return false
+		}
+	}
+	return seen
+}
+
 func ruleC01Builtins(p *Program, r *Run) {
 	g := p.Grammar()
 	have := map[string]bool{}
@@ -740,6 +823,14 @@ func ruleC01Builtins(p *Program, r *Run) {
 			continue
 		}
 		got := g.skeletonOf(row.Decl, nil)
+		// one loop over all arguments that writes the separator in front of every argument but the first is the same
+		// text as "first argument, then separator + argument for the rest"
+		if strings.HasSuffix(want, " H*") && strings.HasPrefix(want, "H0 ") {
+			sep := strings.TrimSuffix(strings.TrimPrefix(want, "H0 "), " H*")
+			if got == sep+" H*" && g.separatorSkipsFirst(row.Decl, sep) {
+				got = want
+			}
+		}
 		key := fmt.Sprintf("pql.knownFunctions[%q] rewrite", row.Name)
 		r.Saw(FuncName(p.PQL, row.Decl))
 		r.Check(got == want, "C01/builtins", key, p.Pos(row.Decl.Pos()), "rewrite skeleton: "+want, fmt.Sprintf("%s(...) is rewritten as `%s`; the documented equivalent is `%s` (arguments each used once, in order)", row.Name, got, want))
